@@ -57,6 +57,8 @@ class PPOps (R : Type) extends OfScientific R, Add R, Sub R, Mul R, Div R, Neg R
   log10 : R → R
   exp : R → R
   sqrt : R → R
+  /-- `f64::cbrt` (total: the real cube root) -/
+  cbrt : R → R
   /-- `std::f64::consts::PI` -/
   pi : R
   /-- `f64::INFINITY`, `f64::NEG_INFINITY`, `f64::NAN` as *results* -/
